@@ -1,5 +1,5 @@
-(* C05 stage 2: the record-time automaton implements [sel2] (SelectSpec2.v): -F / -N / -D / -t together with
-   depth= and time= trigger actions, both instrumentation shapes (the -pg shape under [pg_guard]). *)
+(* C05 stage 2: the record-time automaton implements [sel2] (SelectSpec2.v): -F / -N / -C / -D / -t together with
+   depth= / time= / size= / trace trigger actions, both instrumentation shapes, no further hypothesis. *)
 From Coq Require Import NArith ZArith List Bool Lia.
 Require Import ZifyBool.
 Import ListNotations.
@@ -63,15 +63,16 @@ Section filt2.
     let small := (0 <? zs') && (szf a <? zs') in
     let mxe := match sd g with Some n => n | None => if mx =? FILTER_NO_MAX_DEPTH then gd else mx end in
     if mxe <=? dp0 then
-      match sh with
-      | PG => do_enter c s a t =
-              {| fc := fstate2 i 0 dp mx tm zs; enabled := true; cached := cached s; stack := stack s;
-                 ridx := ridx s; out := out s; warned := false |} /\ hooked c s a = false
-      | CYG => do_enter c s a t =
-               {| fc := fstate2 i' o' dp0 mx' tm' zs'; enabled := true; cached := cached s;
-                  stack := gframe3 CYG true (hitF g) (hitN g) (str g) (sc g) a 0 (ridx s) (fstate2 i 0 dp mx tm zs) :: stack s;
-                  ridx := ridx s; out := out s; warned := false |} /\ hooked c s a = true
-      end
+      (* rejected by the depth limit: the always-push shape keeps a NORECORD frame, -pg does so if the trigger
+         changed the filter state (otherwise nothing happened at all) *)
+      if (match sh with CYG => true | PG => is_some (sf g) || is_some (sd g) || is_some (stm g) || is_some (ssz g) end)
+      then do_enter c s a t =
+           {| fc := fstate2 i' o' dp0 mx' tm' zs'; enabled := true; cached := cached s;
+              stack := gframe3 sh true (hitF g) (hitN g) (str g) (sc g) a 0 (ridx s) (fstate2 i 0 dp mx tm zs) :: stack s;
+              ridx := ridx s; out := out s; warned := false |} /\ hooked c s a = true
+      else do_enter c s a t =
+           {| fc := fstate2 i 0 dp mx tm zs; enabled := true; cached := cached s; stack := stack s;
+              ridx := ridx s; out := out s; warned := false |} /\ hooked c s a = false
     else
       do_enter c s a t =
       {| fc := fstate2 i' o' (dp0 + 1) mx' tm' zs'; enabled := true; cached := cached s;
@@ -97,46 +98,59 @@ Section filt2.
       destruct sh; unfold entry_record, with_fc;
       cbn [fc enabled cached stack ridx out warned in_count out_count fsize f_flags norecord f_addr f_start f_depth
            t_filter t_trace t_caller t_trace_on t_trace_off orb andb noflags cygprof Z.gtb Z.compare N.ltb N.compare
-           fmode_in sym_size ftrig2 sf sd stm ssz str sc fcfg2 Z.add Pos.add fstate2 gframe3 gfl3];
+           fmode_in sym_size ftrig2 sf sd stm ssz str sc fcfg2 Z.add Pos.add fstate2 gframe3 gfl3 state_trig is_some];
       rewrite ?E1, ?E2, ?orb_false_r; try (split; reflexivity);
       match goal with |- context [(0 <? ?z) && (szf a <? ?z)] => destruct ((0 <? z) && (szf a <? z)) end;
       cbn [orb andb]; rewrite ?E1, ?E2, ?orb_false_r; cbn [orb andb]; try (split; reflexivity).
   Qed.
 
-  (* an entry whose trigger is not looked at: inside notrace, or outside every opt-in filter function *)
+  (* an entry whose trigger is not looked at: inside notrace, or outside every opt-in filter function.  The filter
+     state does not change; the always-push shape keeps a NORECORD frame, and so does -pg for a function outside the
+     opt-in scope whose trigger has a depth= / time= / size= action (nothing was applied, the frame is inert) *)
   Lemma enter_skip s i o dp mx tm zs a t :
     fc s = fstate2 i o dp mx tm zs -> enabled s = true -> idx s < ms -> (0 <= o)%Z ->
     ((0 < o)%Z \/ (sf (tg a) = None /\ fm = true /\ i = 0%Z)) ->
-    match sh with
-    | PG => do_enter c s a t =
-            {| fc := fc s; enabled := enabled s; cached := cached s; stack := stack s; ridx := ridx s;
-               out := out s; warned := false |} /\ hooked c s a = false
-    | CYG => exists fr, nrframe fr (fstate2 i o dp mx tm zs) /\
-                        filtered (f_flags fr) = false /\ notrace (f_flags fr) = false /\
-             do_enter c s a t =
-             {| fc := fc s; enabled := enabled s; cached := cached s; stack := fr :: stack s;
-                ridx := ridx s; out := out s; warned := false |} /\ hooked c s a = true
-    end.
+    if (match sh with
+        | CYG => true
+        | PG => negb (o >? 0)%Z && (is_some (sd (tg a)) || is_some (stm (tg a)) || is_some (ssz (tg a)))
+        end)
+    then exists fr, nrframe fr (fstate2 i o dp mx tm zs) /\
+                    filtered (f_flags fr) = false /\ notrace (f_flags fr) = false /\
+         do_enter c s a t =
+         {| fc := fc s; enabled := enabled s; cached := cached s; stack := fr :: stack s;
+            ridx := ridx s; out := out s; warned := false |} /\ hooked c s a = true
+    else do_enter c s a t =
+         {| fc := fc s; enabled := enabled s; cached := cached s; stack := stack s; ridx := ridx s;
+            out := out s; warned := false |} /\ hooked c s a = false.
   Proof.
     intros Hfc Hen Hi Ho Hk.
-    assert (Hsh : sh = PG \/ sh = CYG) by (destruct sh; auto).
     open_entry Hi. rewrite Hfc.
     cbn [fstate2 in_count out_count depth max_depth ftime fsize].
     destruct (o >? 0)%Z eqn:Eo.
-    - destruct Hsh as [-> | ->]; [split; reflexivity|].
-      eexists. split; [|split; [|split; [|split; [|reflexivity]]]].
-      4:{ unfold entry_record.
-          cbn [fc enabled cached stack ridx out warned in_count out_count fsize f_flags norecord f_addr f_start f_depth
-               t_filter t_trace t_caller notrig orb]. reflexivity. }
-      all: cbn; repeat split; reflexivity.
+    - cbn [negb andb]. destruct sh.
+      + cbn [state_trig notrig t_filter t_depth t_time t_size]. split; reflexivity.
+      + eexists. split; [|split; [|split; [|split; [|reflexivity]]]].
+        4:{ unfold entry_record.
+            cbn [fc enabled cached stack ridx out warned in_count out_count fsize f_flags norecord f_addr f_start f_depth
+                 t_filter t_trace t_caller notrig orb]. reflexivity. }
+        all: cbn; repeat split; reflexivity.
     - destruct Hk as [Hk|(Hf & -> & ->)]; [lia|]. rewrite Hf.
-      cbn [andb Z.eqb]. unfold with_fc.
-      destruct Hsh as [-> | ->]; [split; reflexivity|].
-      eexists. split; [|split; [|split; [|split; [|reflexivity]]]].
-      4:{ unfold entry_record.
-          cbn [fc enabled cached stack ridx out warned in_count out_count fsize f_flags norecord f_addr f_start f_depth
-               t_filter t_trace t_caller ftrig2 orb]. rewrite Hf. reflexivity. }
-      all: cbn; repeat split; reflexivity.
+      cbn [andb Z.eqb negb]. unfold with_fc.
+      destruct (tg a) as [f dd tt zz ttr tcl]. cbn [sf sd stm ssz str sc] in *. subst f.
+      destruct sh.
+      + unfold state_trig. cbn [ftrig2 t_filter t_depth t_time t_size sf sd stm ssz].
+        destruct dd as [n|], tt as [t'|], zz as [z'|]; cbn [is_some orb];
+          try (split; reflexivity);
+          (eexists; split; [|split; [|split; [|split; [|reflexivity]]]];
+           [| | |unfold entry_record;
+                 cbn [fc enabled cached stack ridx out warned in_count out_count fsize f_flags norecord f_addr
+                      f_start f_depth t_filter t_trace t_caller ftrig2 sf str sc orb]; reflexivity];
+           cbn; repeat split; reflexivity).
+      + eexists. split; [|split; [|split; [|split; [|reflexivity]]]].
+        4:{ unfold entry_record.
+            cbn [fc enabled cached stack ridx out warned in_count out_count fsize f_flags norecord f_addr f_start f_depth
+                 t_filter t_trace t_caller ftrig2 sf orb]. reflexivity. }
+        all: cbn; repeat split; reflexivity.
   Qed.
 
   (* exit of a frame that may be recorded *)
@@ -257,7 +271,6 @@ Section filt2.
 
   Hypothesis Hgd : 0 < gd.
   Hypothesis WF : wf_tg tg.
-  Hypothesis GUARD : sh = CYG \/ pg_guard tg.
 
   Definition stmt2 (k : call) : Prop :=
     timed k -> forall s hk i o dp mx tm zs x d,
@@ -303,15 +316,15 @@ Section filt2.
                               /\ afterg s s' d (flat_map (sel2 tg szf hc x d) kids)).
     { intros Hrej.
       pose proof (enter_skip s i o dp mx tm zs a t0 Hfc Hen Hi Ho0 Hrej) as ER.
-      destruct Hsh as [Es|Es]; rewrite Es in ER.
-      - destruct ER as [Een Hhk]; rewrite Een, Hhk.
+      match type of ER with if ?b then _ else _ => destruct b end.
+      2:{ destruct ER as [Een Hhk]; rewrite Een, Hhk.
         set (s1 := {| fc := fc s; enabled := enabled s; cached := cached s; stack := stack s; ridx := ridx s;
                       out := out s; warned := false |}).
         assert (Hix : idx s1 + heights kids <= ms) by (unfold idx in *; cbn [stack s1]; lia).
         destruct (RK s1 (false :: hk) i o dp mx tm zs x d Hfc HRel Hen Hr Hix) as (s2 & E2 & A2).
         unfold exec in E2. rewrite E2. cbn [dstep]. exists s2. split; [reflexivity|].
         destruct A2 as (F2 & En2 & C2 & R2 & S2 & O2). cbn [stack out cached fc s1] in *.
-        unfold afterg. auto 10.
+        unfold afterg. auto 10. }
       - destruct ER as (fr & NR & Ffl & Fnt & Een & Hhk). rewrite Een, Hhk.
         set (s1 := {| fc := fc s; enabled := enabled s; cached := cached s; stack := fr :: stack s;
                       ridx := ridx s; out := out s; warned := false |}).
@@ -525,24 +538,11 @@ Section filt2.
              { unfold Rel2, x'. cbn [dead2 scope2 budget2 lim2 cthr2 csz2].
                split; [lia|]. split; [lia|]. split; [split; [discriminate|lia]|]. intros _.
                split; [exact Hsc|]. rewrite Hthr'. repeat split; try assumption; lia. }
-             destruct Hsh as [Es|Es]; rewrite Es in ER; destruct ER as [Een Hhk]; rewrite Een, Hhk.
-             ++ (* -pg shape: the rejected entry leaves the state as it was; the guard excludes a time= / size=
-                   trigger here, so the callees see the threshold the specification says *)
-                assert (Htz : tm' = tm /\ zs' = zs).
-                { destruct GUARD as [G|G]; [congruence|]. specialize (G a). rewrite <- Eg in G.
-                  subst tm' zs'. destruct (stm g) as [t|] eqn:Est, (ssz g) as [z|] eqn:Esz; try (split; reflexivity);
-                    (destruct G as [G|G]; [first [left; discriminate|right; discriminate]|congruence|congruence]). }
-                destruct Htz as [Htm Hzs].
-                set (s1 := {| fc := fstate2 i 0 dp mx tm zs; enabled := true; cached := cached s; stack := stack s;
-                              ridx := ridx s; out := out s; warned := false |}).
-                assert (Hix : idx s1 + heights kids <= ms) by (unfold idx in *; cbn [stack s1]; lia).
-                assert (HR'' : Rel2 i 0 dp mx tm zs x') by (rewrite <- Htm, <- Hzs; exact HR').
-                destruct (RK s1 (false :: hk) i 0%Z dp mx tm zs x' d eq_refl HR'' eq_refl Hr Hix) as (s2 & E2 & A2).
-                unfold exec in E2. rewrite E2. cbn [dstep]. exists s2. split; [reflexivity|].
-                destruct A2 as (F2 & En2 & C2 & R2 & S2 & O2). cbn [stack out cached fc s1] in *.
-                unfold afterg. rewrite Hfc. auto 10.
-             ++ (* always-push shape: the frame restores the threshold and the size filter at exit *)
-                set (fr := gframe3 CYG true false false (str g) (sc g) a 0 (ridx s) (fstate2 i 0 dp mx tm zs)).
+             cbn [orb] in ER.
+             match type of ER with if ?b then _ else _ => destruct b eqn:Push end; destruct ER as [Een Hhk]; rewrite Een, Hhk.
+             ++ (* a NORECORD frame is kept (always under cygprof; under -pg because the trigger changed the state):
+                   it carries the threshold and the size filter to the callees and restores them at exit *)
+                set (fr := gframe3 sh true false false (str g) (sc g) a 0 (ridx s) (fstate2 i 0 dp mx tm zs)).
                 set (s1 := {| fc := fstate2 i 0 dp mx tm' zs'; enabled := true; cached := cached s; stack := fr :: stack s;
                               ridx := ridx s; out := out s; warned := false |}).
                 assert (Hix : idx s1 + heights kids <= ms) by (unfold idx in *; cbn [stack s1 length]; lia).
@@ -555,6 +555,20 @@ Section filt2.
                 eexists. split; [reflexivity|].
                 unfold afterg. cbn [fc enabled cached ridx stack out]. rewrite Hfc.
                 repeat split; try assumption; congruence.
+             ++ (* -pg shape, no time= / size= trigger here: nothing happened at all *)
+                assert (Htz : tm' = tm /\ zs' = zs).
+                { subst tm' zs'. destruct sh; [|discriminate Push].
+                  destruct (stm g) as [t|], (ssz g) as [z|]; cbn [is_some orb] in Push; try discriminate Push.
+                  split; reflexivity. }
+                destruct Htz as [Htm Hzs].
+                set (s1 := {| fc := fstate2 i 0 dp mx tm zs; enabled := true; cached := cached s; stack := stack s;
+                              ridx := ridx s; out := out s; warned := false |}).
+                assert (Hix : idx s1 + heights kids <= ms) by (unfold idx in *; cbn [stack s1]; lia).
+                assert (HR'' : Rel2 i 0 dp mx tm zs x') by (rewrite <- Htm, <- Hzs; exact HR').
+                destruct (RK s1 (false :: hk) i 0%Z dp mx tm zs x' d eq_refl HR'' eq_refl Hr Hix) as (s2 & E2 & A2).
+                unfold exec in E2. rewrite E2. cbn [dstep]. exists s2. split; [reflexivity|].
+                destruct A2 as (F2 & En2 & C2 & R2 & S2 & O2). cbn [stack out cached fc s1] in *.
+                unfold afterg. rewrite Hfc. auto 10.
           -- (* within the limit *)
              destruct ER as [Een Hhk].
              assert (Hb' : (0 <? budget2 x) = true) by lia. rewrite Hb'. cbv zeta.
@@ -593,34 +607,32 @@ Definition tg_example : N -> strig :=
   assoc notrig2 [(256, {| sf := Some true; sd := Some 2; stm := Some 50; ssz := Some 40; str := false; sc := true |});
                  (512, {| sf := Some false; sd := None; stm := None; ssz := None; str := false; sc := false |});
                  (768, {| sf := None; sd := Some 3; stm := Some 7; ssz := None; str := true; sc := false |})].
-Lemma tg_example_ok : wf_tg tg_example /\ pg_guard tg_example.
+Lemma tg_example_ok : wf_tg tg_example.
 Proof.
-  split; intro a; unfold tg_example; cbn [assoc].
-  - destruct (a =? 256); [|destruct (a =? 512); [|destruct (a =? 768)]]; cbn [sf sd stm ssz str sc notrig2];
-      (split; intros ? H; inversion H; subst; try split; try lia; discriminate).
-  - destruct (a =? 256); [|destruct (a =? 512); [|destruct (a =? 768)]]; cbn [sf sd stm ssz str sc notrig2];
-      intro H; try (left; discriminate); try (right; discriminate); destruct H; congruence.
+  intro a; unfold tg_example; cbn [assoc].
+  destruct (a =? 256); [|destruct (a =? 512); [|destruct (a =? 768)]]; cbn [sf sd stm ssz str sc notrig2];
+    (split; intros ? H; inversion H; subst; try split; try lia; discriminate).
 Qed.
 
 (* consequence: inside this option class the recorded stream does not depend on the instrumentation method *)
 Theorem method_independent_sel2 tg szf fm hc gd thr ms f :
-  0 < gd -> wf_tg tg -> pg_guard tg -> all_timed f -> heights f <= ms ->
+  0 < gd -> wf_tg tg -> all_timed f -> heights f <= ms ->
   out (fst (exec (fcfg2 tg szf fm hc gd thr ms PG) (flat_forest f) (init, []))) =
   out (fst (exec (fcfg2 tg szf fm hc gd thr ms CYG) (flat_forest f) (init, []))).
 Proof.
-  intros Hgd WF G HT Hh.
-  rewrite (run_forest_sel2 tg szf fm hc gd thr ms PG Hgd WF (or_intror G) f HT Hh).
-  rewrite (run_forest_sel2 tg szf fm hc gd thr ms CYG Hgd WF (or_introl eq_refl) f HT Hh). reflexivity.
+  intros Hgd WF HT Hh.
+  rewrite (run_forest_sel2 tg szf fm hc gd thr ms PG Hgd WF f HT Hh).
+  rewrite (run_forest_sel2 tg szf fm hc gd thr ms CYG Hgd WF f HT Hh). reflexivity.
 Qed.
 
 (* inside this option class the filter state is restored on the -pg shape as well (beyond [safe_pg] of Restore.v:
    time= and size= triggers are allowed when they come with a filter or a depth= trigger) *)
 Theorem filter_state_restored_sel2 tg szf fm hc gd thr ms sh f :
-  0 < gd -> wf_tg tg -> sh = CYG \/ pg_guard tg -> all_timed f -> heights f <= ms ->
+  0 < gd -> wf_tg tg -> all_timed f -> heights f <= ms ->
   fc (fst (exec (fcfg2 tg szf fm hc gd thr ms sh) (flat_forest f) (init, []))) = fc init /\
   ridx (fst (exec (fcfg2 tg szf fm hc gd thr ms sh) (flat_forest f) (init, []))) = 0.
 Proof.
-  intros Hgd WF G HT Hh.
+  intros Hgd WF HT Hh.
   assert (HF : Forall (stmt2 tg szf fm hc gd thr ms sh) f)
     by (apply Forall_forall; intros k0 _; apply run_call_sel2; assumption).
   assert (HR : Rel2 fm gd thr 0 0 0 FILTER_NO_MAX_DEPTH NO_TIME 0 (x02 fm gd thr)).
@@ -636,12 +648,34 @@ Qed.
 
 (* ... and after every single call, from every state the class can reach (Rel2 links it to a context of the spec) *)
 Theorem call_restores_state_sel2 tg szf fm hc gd thr ms sh :
-  0 < gd -> wf_tg tg -> sh = CYG \/ pg_guard tg -> forall k, timed k -> forall s hk i o dp mx tm zs x,
+  0 < gd -> wf_tg tg -> forall k, timed k -> forall s hk i o dp mx tm zs x,
   fc s = fstate2 i o dp mx tm zs -> Rel2 fm gd thr i o dp mx tm zs x -> enabled s = true -> idx s + height k <= ms ->
   exists s', exec (fcfg2 tg szf fm hc gd thr ms sh) (flat k) (s, hk) = (s', hk) /\ fc s' = fc s /\ ridx s' = ridx s.
 Proof.
-  intros Hgd WF G k HT s hk i o dp mx tm zs x Hfc HR Hen Hh.
-  destruct (run_call_sel2 tg szf fm hc gd thr ms sh Hgd WF G k HT s hk i o dp mx tm zs x (ridx s) Hfc HR Hen eq_refl Hh)
+  intros Hgd WF k HT s hk i o dp mx tm zs x Hfc HR Hen Hh.
+  destruct (run_call_sel2 tg szf fm hc gd thr ms sh Hgd WF k HT s hk i o dp mx tm zs x (ridx s) Hfc HR Hen eq_refl Hh)
     as (s' & E & A).
   exists s'. split; [exact E|]. destruct A as (F & _ & _ & R & _ & _). split; assumption.
+Qed.
+
+(* with the global size filter -Z gz every thread starts from [init_z gz]; the same refinement *)
+Theorem run_forest_sel2_z tg szf fm hc gd thr ms sh gz f :
+  0 < gd -> wf_tg tg -> all_timed f -> heights f <= ms ->
+  out (fst (exec (fcfg2 tg szf fm hc gd thr ms sh) (flat_forest f) (init_z gz, []))) =
+  flat_map (sel2 tg szf hc (x02z fm gd thr gz) 0) f.
+Proof.
+  intros Hgd WF HT Hh.
+  assert (HF : Forall (stmt2 tg szf fm hc gd thr ms sh) f)
+    by (apply Forall_forall; intros k0 _; apply run_call_sel2; assumption).
+  assert (HR : Rel2 fm gd thr 0 0 0 FILTER_NO_MAX_DEPTH NO_TIME gz (x02z fm gd thr gz)).
+  { unfold Rel2, x02z. cbn [dead2 scope2 budget2 lim2 cthr2 csz2]. rewrite !N.eqb_refl.
+    split; [lia|]. split; [lia|]. split; [split; [discriminate|lia]|]. intros _.
+    split; [split; intro H; [left; apply negb_true_iff; exact H|destruct H as [H|H]; [rewrite H; reflexivity|lia]]|].
+    repeat split; lia. }
+  assert (Hix : idx (init_z gz) + heights f <= ms) by (cbn; lia).
+  destruct (run_kids_sel2 tg szf fm hc gd thr ms sh Hgd f HF HT (init_z gz) [] 0%Z 0%Z 0 FILTER_NO_MAX_DEPTH NO_TIME gz
+                          (x02z fm gd thr gz) 0 eq_refl HR eq_refl eq_refl Hix) as (s' & E & A).
+  unfold flat_forest. rewrite E. cbn [fst].
+  destruct A as (_ & _ & _ & _ & _ & O). rewrite O. cbn [init_z out stack flush_anc snd app].
+  destruct (is_nil _); reflexivity.
 Qed.
